@@ -1,7 +1,7 @@
 import json, os, re, shutil, sys, glob
 agents = sys.argv[1:]
 W3={'W3a':'C12','W3b':'C19','W3c':'C13','W3d':'C01','W3e':'C02','W3f':'C04'}
-prop_of = lambda a: W3.get(a, a[3:6] if a.startswith('W10') or a.startswith('W11') or a.startswith('W12') or a.startswith('W13') or a.startswith('W14') or a.startswith('W15') or a.startswith('W16') else (a[2:5] if a[:2] in ('W4','W5','W6','W7','W8','W9') else a[:3]))
+prop_of = lambda a: W3.get(a, a[3:6] if a.startswith('W10') or a.startswith('W11') or a.startswith('W12') or a.startswith('W13') or a.startswith('W14') or a.startswith('W15') or a.startswith('W16') or a.startswith('W17') else (a[2:5] if a[:2] in ('W4','W5','W6','W7','W8','W9') else a[:3]))
 for a in agents:
     for d in sorted(glob.glob('/tmp/seedout/%s/change*' % a)):
         n = d[-1]
